@@ -33,12 +33,6 @@ partial def parseInv : List String → Option (Inv × List String)
   | [] => none
 end
 
-def showAtom : VAtom → String
-  | .nodeIsOn => "nodeIsOn" | .nodeIsOff => "nodeIsOff" | .nicEnabled => "nicEnabled" | .nicDisabled => "nicDisabled"
-  | .serviceState s => "serviceState:" ++ s | .appState s => "appState:" ++ s
-  | .folderExists => "folderExists" | .folderNotDeleted => "folderNotDeleted" | .fsFileExists => "fsFileExists"
-  | .folderFileExists => "folderFileExists" | .fileNotDeleted => "fileNotDeleted" | .groupMember => "groupMember"
-
 def parseAssign (toks : List String) : Option (List (String × String)) :=
   toks.mapM (fun t => match t.splitOn "=" with
     | [a, b] => some (a, decKey b)
@@ -60,7 +54,7 @@ def step (inv : Inv) : List String → Inv × String
         let res := resolves S c t
         let pr := present S (pickNode S c) rootMgr inv t.segs ρ
         let path := (instantiate ρ t.segs).map encKey
-        let vals := (routeVals S rootMgr inv t.segs ρ).map (fun v => if v.isEmpty then "-" else ",".intercalate (v.map showAtom))
+        let vals := (routeVals S rootMgr inv t.segs ρ).map (fun v => if v.isEmpty then "-" else ",".intercalate (v.map VAtom.show))
         (inv, s!"resolves={showBool res} | present={showBool pr} | path={" ".intercalate path} | vals={";".intercalate vals}")
       | none => (inv, "bad-template-index")
     | _, _ => (inv, "bad-op")
